@@ -323,3 +323,47 @@ func H_C11_dropclose() {
 	_, n := fx.s.GetMetric()
 	assert(n == 2, "both vBuckets of the new range are streaming")
 }
+
+// H_C05_window: a save issued while the stream is closed for a rebalance (the
+// application's Commit(), or the last tick of the stopped checkpoint schedule)
+// with progress that was acknowledged but not yet saved when the rebalance
+// began. Over a backend that stores the whole state per save (the file backend)
+// such a save must not destroy the checkpoints already stored: after the
+// reopen every vBucket resumes at its stored position.
+func H_C05_window() {
+	setMerge(true)
+	setPreempt(0)
+	c := vC11Setup(false)
+	fx := c.fx
+	fx.fm.wholeState = true
+	fx.s.Open()
+	setHorizon(int64(5 * time.Minute))
+	before := map[uint16]*models.CheckpointDocument{}
+	for vb, d := range fx.fm.store {
+		before[vb] = d
+	}
+	// progress on vBucket 0 that no save has stored yet
+	if nondetBool("unsaved-progress") {
+		o := vOffset("ev")
+		cur, _ := fx.s.offsets.Load(0)
+		assume(o.SeqNo > cur.SeqNo)
+		fx.s.listen(models.ListenerArgs{Event: models.DcpSeqNoAdvanced{DcpSeqNoAdvanced: &gocbcore.DcpSeqNoAdvanced{VbID: 0, SeqNo: o.SeqNo}, Offset: o}})
+		cover("unsaved-progress")
+	}
+	if choose("range", 2) == 1 {
+		c.member = 2
+	}
+	c.lastNote = nowNs()
+	fx.s.Rebalance() // the stream is closed, the reopen is pending
+	time.Sleep(vDelay / 2)
+	saves := len(fx.fm.calls)
+	fx.s.Save() // Commit() / the schedule's last tick inside the window
+	cover("save-in-window")
+	for vb, d := range before {
+		got, ok := fx.fm.store[vb]
+		assert(ok, "a save inside the rebalance window does not wipe a stored checkpoint")
+		assert(got == d || len(fx.fm.calls) == saves, "nor replace it")
+	}
+	quiesce()
+	c.check(vDelay, 1)
+}
